@@ -342,6 +342,15 @@ func genHistory(c *ctx, prof histProfile, ndsRequired bool) {
 				}
 				anys = append(anys[:pos], append([]*anypb.Any{bad}, anys[pos:]...)...)
 				c.count("push=bad", 1)
+				if r.chance(15) {
+					// a whole batch of unusable resources (a payload sent under the wrong type): however long the list of errors
+					// gets, the answer is a NACK with an error detail
+					for k := 0; k < 15+r.intn(30); k++ {
+						slots = append([][3]string{{"bad", "", ""}}, slots...)
+						anys = append([]*anypb.Any{badAny(rt, r.intn(2))}, anys...)
+					}
+					c.count("push=bad-batch", 1)
+				}
 			}
 			if lp, ok := lastPush[rt]; ok && r.chance(20) {
 				// the control plane sends the very same resources again (byte for byte) under a new version and nonce - after
